@@ -490,7 +490,7 @@ def runModel (ts : List String) : String :=
     | none => "bad-case"
   | "bat" :: _ =>
     match batInput ts with
-    | some (pcs, s) => batShow (aObs (closeSeq false (run (aProg false) s (aInit pcs)).sh))
+    | some (pcs, s) => batShow (aObs (closeSeq false (run (aProg false true) s (aInit pcs)).sh))
     | none => "bad-case"
   | "cst" :: _ =>
     match cstInput ts with
